@@ -65,6 +65,7 @@ class Opts:
         self.p_priv_item = None      # probability of a private type / enum / function (default: p_priv)
         self.static_fns = True
         self.p_gap_before_base = 0.25   # a `_: unknown<N>` gap in front of a #[base] field (the base is then not at offset 0)
+        self.p_attrs_first = 0.3     # probability that the non-doc attributes of a function are written BEFORE its doc comment
         self.p_unnamed = 0.06        # probability that an array-typed field is written `_: [T; N]`
         self.p_underscore = 0.0      # probability that a function gets a `_`-prefixed ("internal") name
         self.int_args_only = False   # arguments / returns that travel in one integer register (O4 execution)
@@ -193,6 +194,8 @@ class WorldGen:
         if not vfunc:
             at.append(a_int('address', self.next_addr()))
         pub = rng.random() > (o.p_priv if o.p_priv_item is None else o.p_priv_item)
+        if rng.random() < o.p_attrs_first:
+            at = [a for a in at if not (a[0] == 'aa' and a[1] == 'doc')] + [a for a in at if a[0] == 'aa' and a[1] == 'doc']
         return fn(pub, name, at, args, ret), pub
 
     # ---------------------------------------------------------------- items
@@ -450,7 +453,7 @@ class WorldGen:
                 target = start_new
             if rng.random() < o.p_index or target != pos:
                 target = target + (rng.choice([0, 0, 1, 2]) if rng.random() < 0.7 else 0)
-                f[3] = attrs(*(f[3][1:] + [a_int('index', target)]))
+                f[3] = attrs(*([a_int('index', target)] + f[3][1:])) if rng.random() < o.p_attrs_first else attrs(*(f[3][1:] + [a_int('index', target)]))
             base_f = [x for x in f]
             base_f[3] = attrs(*[a for a in f[3][1:] if not (a[0] == 'af' and a[1] == 'index')])
             fns.append(f); slots.append((base_f, target)); pos = target + 1
